@@ -24,6 +24,7 @@ TABLE = {
     "param.parameters.Integer": "isinstance",
     "param.parameters.Magnitude": "_is_number",
     "param.parameters.Date": "isinstance",
+    "param.parameters.CalendarDate": "isinstance",
     "param.parameters.Tuple": "isinstance",
     "param.parameters.List": "isinstance",
     "param.parameters.HookList": "isinstance",
@@ -47,7 +48,10 @@ def run_type(ctx, q):
     n = 0
     bad = []
     accepts_callables = TABLE[q] == "callable" or q in DYNAMIC_NUMERIC
-    for allow_none, kind0 in itertools.product([True, False], ["none", "ok", "falsy", "bad", "callable"]):
+    kinds = ["none", "ok", "falsy", "bad", "callable"]
+    if q == "param.parameters.CalendarDate":
+        kinds.append("datetime")       # a datetime is a date by subclassing, but not a calendar date: rejected like any ill-typed value
+    for allow_none, kind0 in itertools.product([True, False], kinds):
         # "falsy": a well-typed value whose truth value is False ('' / 0 / () / [] / {}): typed like any other
         kind = "ok" if kind0 == "falsy" else kind0
         val = None if kind == "none" else Obj("value_" + kind0, __iter__=[] if kind0 == "falsy" else [Obj("element")])
@@ -61,6 +65,14 @@ def run_type(ctx, q):
             subject = args[0] if args else None
             if fn == "callable" and (subject is val or subject is None):
                 return kind == "callable" or (kind == "ok" and TABLE[q] == "callable")
+            if fn == "isinstance" and kind == "datetime" and subject is val and len(args) == 2:
+                if args[1] == "<datetime>":
+                    return True
+                if args[1] == "<date>":
+                    return True
+                raise Unsupported("isinstance(value, %r) for a datetime value" % (args[1],))
+            if fn == "isinstance" and q == "param.parameters.CalendarDate" and subject is val and len(args) == 2 and args[1] == "<datetime>":
+                return False        # a well-typed / ill-typed non-datetime value
             if fn in ("isinstance", "_is_number", "callable", "issubclass"):
                 if subject is val or subject is None:
                     return kind == "ok"
@@ -74,13 +86,16 @@ def run_type(ctx, q):
             if fn.endswith(".lower"):
                 return "name"
             return NotImplemented
-        it = Interp(hier, dyn=q, inline=lambda m: m.startswith("_validate"), call_hook=hook)
+        it = Interp(hier, dyn=q, inline=lambda m: m.startswith("_validate"), call_hook=hook,
+                    globals={"dt": Obj("datetime_module", date="<date>", datetime="<datetime>")} if q == "param.parameters.CalendarDate" else None)
         try:
             outs = it.run_all(f, {f.params[0]: self_obj, f.params[1]: val})
         except Unsupported as e:
             raise AnalysisError("absint cannot interpret the validators of %s: %s -- R01.h cannot decide" % (name, e))
         n += 1
         want = allow_none if kind == "none" else (accepts_callables if kind == "callable" else kind == "ok")
+        if kind == "datetime":
+            want = False
         for o in outs:
             if o.imprecise:
                 raise AnalysisError("absint imprecise on the validators of %s (allow_None=%s, value %s): %s" % (name, allow_none, kind, o.notes[:2]))
@@ -91,7 +106,8 @@ def run_type(ctx, q):
     if bad:
         an, kind, got = bad[0]
         what = {"none": "None", "ok": "a value of the declared type", "falsy": "an empty/zero (falsy) value of the declared type", "bad": "a value of a different type",
-                "callable": "a callable that is not of the declared type"}[kind]
+                "callable": "a callable that is not of the declared type",
+                "datetime": "a datetime (a date by subclassing, but not a calendar date)"}[kind]
         ctx.fail("R01.h", f, f.node, "%s with allow_None=%s %s %s (specification: %s)" % (
             name, an, "accepts" if got else "rejects", what, "reject" if got else "accept"),
             key="%s::type-none-table::%s::%s" % (q, kind, "accept" if got else "reject"),
